@@ -83,11 +83,11 @@ PROPS = {
                  "unique error/loss tensors and a payload, with one optional fault (NaN, +inf, -inf, exception) attached to one invocation; non-trivial = at "
                  "least 2 simulated threads and 1 context switch; distinct = distinct trace hash"),
         "batches": [
-            {"name": "plain", "cfg": "plain", "tiers": ["quick", "thorough"], "runs": {"quick": 24000, "thorough": 1200000},
+            {"name": "plain", "cfg": "plain", "tiers": ["quick", "thorough"], "runs": {"quick": 16000, "thorough": 1200000},
              "wall_cap": {"quick": 200, "thorough": 2400}},
-            {"name": "tsan", "cfg": "tsan", "tiers": ["quick", "thorough"], "runs": {"quick": 5000, "thorough": 200000},
+            {"name": "tsan", "cfg": "tsan", "tiers": ["quick", "thorough"], "runs": {"quick": 3200, "thorough": 200000},
              "extra": ["--set", "max_cores=6"], "wall_cap": {"quick": 200, "thorough": 2400}},
-            {"name": "asan", "cfg": "asan", "tiers": ["quick", "thorough"], "runs": {"quick": 5000, "thorough": 200000},
+            {"name": "asan", "cfg": "asan", "tiers": ["quick", "thorough"], "runs": {"quick": 3200, "thorough": 200000},
              "wall_cap": {"quick": 200, "thorough": 2400}},
         ],
         "gate": {"quick": 60, "thorough": 500},
